@@ -87,7 +87,15 @@ func (s *Sink) Pending() []string {
 	for id := range s.pending {
 		ids = append(ids, id)
 	}
-	sort.Strings(ids)
+	// gates (internal scheduling points) sort before probes: the default path lets the executor
+	// settle internally before a command is allowed to finish
+	sort.Slice(ids, func(i, j int) bool {
+		gi, gj := strings.HasPrefix(ids[i], "G|"), strings.HasPrefix(ids[j], "G|")
+		if gi != gj {
+			return gi
+		}
+		return ids[i] < ids[j]
+	})
 	return ids
 }
 
